@@ -50,6 +50,8 @@ type evCase struct {
 	// place the whole sequence a few hours in the future (legitimate: < 24 h), so that far-future garbage can be
 	// more than 24 h ahead of the clock and yet less than 24 h ahead of the events already accepted.
 	Base int64 `json:"base_abs_ms,omitempty"`
+	// FloatTS: timestamps are emitted as float64 (what encoding/json produces for every number)
+	FloatTS bool `json:"float_timestamps,omitempty"`
 	// K2: GROUP BY k, k2 (rows carry evK2 keys)
 	K2 bool `json:"two_key_columns,omitempty"`
 	// complete, when set, says whether every result the oracle is going to demand has been delivered.  The
@@ -76,6 +78,7 @@ func durStr(ms int64) string {
 }
 
 func (c *evCase) buildSQL() {
+	c.FloatTS = c.Index%4 == 2
 	var w string
 	switch c.Kind {
 	case "tumbling":
@@ -267,6 +270,9 @@ func (c *evCase) rowMap(r evRow) Row {
 		m["ts"] = "not-a-time"
 	default:
 		m["ts"] = c.base() + r.TS
+		if c.FloatTS {
+			m["ts"] = float64(c.base() + r.TS) // the same instant as a JSON decoder delivers it
+		}
 	}
 	return m
 }
